@@ -448,6 +448,15 @@ func buildC07(tier string) *core.Plan {
 				map[string]any{"e": []any{mk, map[string]any{"$encode": "join:,"}}},
 				map[string]any{"e": map[string]any{"$encode": "values", "k": mk}},
 				map[string]any{"e": map[string]any{"$value": mk}},
+				// the marker is not the first element a transform looks at
+				map[string]any{"e": []any{"a", mk, map[string]any{"$encode": "join:,"}}},
+				map[string]any{"e": []any{"a", "b", mk, map[string]any{"$encode": "join"}}},
+				map[string]any{"e": []any{[]any{"a", mk}, map[string]any{"$encode": []any{"flatten", "join:,"}}}},
+				map[string]any{"e": []any{"a", mk, map[string]any{"$encode": "prefix:X"}}},
+				map[string]any{"e": map[string]any{"$encode": "values", "a": 1, "k": mk}},
+				map[string]any{"e": map[string]any{"$encode": "tolist:=", "a": "x", "k": mk}},
+				map[string]any{"e": map[string]any{"$encode": "flags", "a": "x", "k": mk}},
+				map[string]any{"e": map[string]any{"$encode": []any{"values", "join:,"}, "a": "x", "k": mk}},
 			}
 			for _, d := range docs {
 				c.Eval()
